@@ -254,7 +254,7 @@ void harness(void)
 		c->base.copy = xattr_writer_copy;
 		c->base.refcount = 1;
 
-		VERIF_ASSERT(!VERIF_SAME_OBJECT(c, o) && c->kv_start == kv_start &&
+		VERIF_ASSERT(C19_DISTINCT(c, o) && c->kv_start == kv_start &&
 			     c->num_blocks == NB, C19_OB("fresh"));
 		VERIF_ASSERT(g_st_live == 4 && c->keys.ht != NULL && c->keys.ht != okht &&
 			     c->values.ht != NULL && c->values.ht != ovht &&
@@ -264,7 +264,7 @@ void harness(void)
 			     c->keys.bucket_ptrs.used == o->keys.bucket_ptrs.used &&
 			     c->values.bucket_ptrs.used == o->values.bucket_ptrs.used,
 			     C19_OB("fresh"));
-		VERIF_ASSERT(cpairs != NULL && !VERIF_SAME_OBJECT(cpairs, opairs) &&
+		VERIF_ASSERT(cpairs != NULL && C19_DISTINCT(cpairs, opairs) &&
 			     c->kv_pairs.size == sizeof(sqfs_u64) &&
 			     c->kv_pairs.used == NPAIRS && c->kv_pairs.count >= NPAIRS &&
 			     VERIF_RW_OK(cpairs, NPAIRS * sizeof(sqfs_u64)), C19_OB("fresh"));
@@ -290,7 +290,7 @@ void harness(void)
 			VERIF_ASSERT(cn[i] != NULL && VERIF_RW_OK(cn[i], 24 + 40 + 4),
 				     C19_OB("fresh.tree"));
 			for (j = 0; j < NB; ++j)
-				VERIF_ASSERT(!VERIF_SAME_OBJECT(cn[i], on[j]),
+				VERIF_ASSERT(C19_DISTINCT(cn[i], on[j]),
 					     C19_OB("fresh.tree"));
 			cd[i] = (kv_block_desc_t *)cn[i]->data;
 			VERIF_ASSERT((cn[i]->left != NULL) == (i == 0 && NB > 1) &&
